@@ -17,7 +17,7 @@ use std::time::Duration;
 pub static INFO: PropInfo = PropInfo {
     id: "C20",
     level: "exploration",
-    rule: "one evaluation = one session of the real NetcodeServerTransport and 1-5 NetcodeClientTransports over 127.0.0.1 UDP sockets, single-threaded with virtual durations, through an in-path relay (one front socket the clients believe is the server, one back socket per client) that applies a seeded schedule to the real datagrams: drop, duplicate, delay / reorder, replay of old datagrams, bit corruption; applications submit messages on all three channel kinds both ways, disconnect from either side / either layer at seeded ticks, and reconnect with the same client id; secure and unsecure authentication. Oracles: right after every NetcodeServerTransport::update the server has no disconnected-but-present connection, the message layer's connected ids equal the ids the transport has an address for, and both counts agree; ServerEvents per id alternate Connected/Disconnected starting with Connected; every application- or peer-initiated disconnect is visible on the other side within timeout + 1 s of virtual time; every obtained message is a byte-identical submission of the same client / channel, in order on ordered channels and at most once on reliable ones; in interference-only runs (every timeout window sees a genuine datagram delivered each way) no session ends unless an application asked for it; every datagram seen by the relay is <= 1400 bytes. Non-trivial = the relay interfered (drop/dup/delay/replay/corrupt) AND at least one client connected AND at least one disconnect was propagated; distinct = fingerprints of the session history (connects, disconnects, message counts). In half of the clean-relay runs one client (with an id of its own) is MUTED: the relay drops every server-to-client session datagram for it, so the server holds its session while the client is still answering the challenge; its application then disconnects (client or transport API) and the server side must be gone within 6 ticks. A quarter of the runs end their fault phase with a SERVER SHUTDOWN: 0-2 message-layer kicks (RenetServer::disconnect) are left pending and NetcodeServerTransport::disconnect_all is called in the same frame; the netcode layer must be empty at once, every session gets its ClientDisconnected and every client ends. At the end of every run the last event per id must agree with both layers.",
+    rule: "one evaluation = one session of the real NetcodeServerTransport and 1-5 NetcodeClientTransports over 127.0.0.1 UDP sockets, single-threaded with virtual durations, through an in-path relay (one front socket the clients believe is the server, one back socket per client) that applies a seeded schedule to the real datagrams: drop, duplicate, delay / reorder, replay of old datagrams, bit corruption; applications submit messages on all three channel kinds both ways, disconnect from either side / either layer at seeded ticks, and reconnect with the same client id; secure and unsecure authentication. Oracles: right after every NetcodeServerTransport::update the server has no disconnected-but-present connection, the message layer's connected ids equal the ids the transport has an address for, and both counts agree; ServerEvents per id alternate Connected/Disconnected starting with Connected; every application- or peer-initiated disconnect is visible on the other side within timeout + 1 s of virtual time; every obtained message is a byte-identical submission of the same client / channel, in order on ordered channels and at most once on reliable ones; in interference-only runs (every timeout window sees a genuine datagram delivered each way) no session ends unless an application asked for it; every datagram seen by the relay is <= 1400 bytes. Non-trivial = the relay interfered (drop/dup/delay/replay/corrupt) AND at least one client connected AND at least one disconnect was propagated; distinct = fingerprints of the session history (connects, disconnects, message counts). In half of the clean-relay runs one client (with an id of its own) is MUTED: the relay drops every server-to-client session datagram for it, so the server holds its session while the client is still answering the challenge; its application then disconnects (client or transport API) and the server side must be gone within 6 ticks. A quarter of the runs end their fault phase with a SERVER SHUTDOWN: 0-2 message-layer kicks (RenetServer::disconnect) are left pending and NetcodeServerTransport::disconnect_all is called in the same frame; the netcode layer must be empty at once, every session gets its ClientDisconnected and every client ends. At the end of every run the last event per id must agree with both layers. A third of the runs also have a HOST PLAYER: a local client of the same RenetServer (new_local_client, pumped with process_local_client every tick after the transport's send_packets) exchanging ordered messages with the server; it has no netcode session (excluded from the lock-step comparison), must never be reported disconnected, and its ordered streams must be complete and in order at the end of the run.",
     assumptions: &[
         "single-threaded endpoints, loopback delivery is effectively synchronous; a datagram the relay misses arrives one tick later (a legal delay)",
         "bounds are on virtual time (durations passed to update), never wall-clock",
@@ -42,6 +42,7 @@ pub static INFO: PropInfo = PropInfo {
         ("silenced_client_timed_out", 5),
         ("disconnect_during_handshake_with_server_session", 5),
         ("shutdown_disconnect_all", 20),
+        ("host_player_liveness_checked", 50),
         ("shutdown_message_layer_kick_pending", 10),
     ],
     engines_quick: &["e1"],
@@ -102,6 +103,15 @@ struct Peer {
     tag: u64,
 }
 
+const HOST_ID: u64 = 9_000_001;
+
+struct Host {
+    client: RenetClient,
+    /// ordered channel both ways: [0] host -> server, [1] server -> host
+    subs: [Vec<Vec<u8>>; 2],
+    got: [usize; 2],
+}
+
 struct InFlight {
     at: u64,
     to_server: bool,
@@ -137,6 +147,8 @@ struct World {
     /// clean-relay scenario: every server->client session datagram (keep-alive, payload, disconnect) for this peer is
     /// dropped, so the server holds its session while the client is still answering the challenge
     muted: Option<usize>,
+    /// a host player: a LOCAL client of the same RenetServer (listen-server setup); it has no netcode session
+    host: Option<Host>,
     /// first server->client datagram seen per (peer, generation): a handshake reply (challenge)
     stale: HashMap<(usize, u32), Vec<u8>>,
 }
@@ -304,8 +316,14 @@ fn one_run_inner(ctx: &Ctx, out: &mut Outcome, run_seed: u64) {
         server_closed: HashMap::new(),
         silenced: None,
         muted: None,
+        host: None,
         stale: HashMap::new(),
     };
+    if r.chance(1, 3) {
+        let client = w.server.new_local_client(HOST_ID);
+        w.host = Some(Host { client, subs: [Vec::new(), Vec::new()], got: [0, 0] });
+        out.count("runs_with_host_player");
+    }
     let n_clients = r.urange(1, max_clients.min(5));
     for k in 0..n_clients {
         match w.new_peer(&mut r, 100 + k as u64, 0) {
@@ -476,12 +494,29 @@ fn one_run_inner(ctx: &Ctx, out: &mut Outcome, run_seed: u64) {
             }
         }
 
+        // ---- host player: game logic submits before the transports run (frame order: logic, update, send) -----
+        if faults_on && w.host.is_some() {
+            let World { server, host, .. } = &mut w;
+            let h = host.as_mut().unwrap();
+            for dir in 0..2usize {
+                if r.chance(1, 2) {
+                    let len = payload::pick_len(&mut r, 3000, false).max(24);
+                    let b = payload::make(200, dir as u8, CH_RO, 0, h.subs[dir].len() as u64, len, 0x4057);
+                    h.subs[dir].push(b.clone());
+                    if dir == 0 {
+                        h.client.send_message(CH_RO, Bytes::from(b));
+                    } else {
+                        server.send_message(HOST_ID, CH_RO, Bytes::from(b));
+                    }
+                }
+            }
+        }
         // ---- server shutdown at the end of the fault phase (some runs) ----------------------------------
         // The application kicks 0-2 clients at the message layer and, in the same frame, closes everything through the
         // transport (NetcodeServerTransport::disconnect_all, "use this when closing/exiting games"): both layers must
         // be empty right away, every session gets its ClientDisconnected, every client learns of it.
         if shutdown_run && w.tick == settle_from {
-            let mut ids: Vec<u64> = w.server.clients_id();
+            let mut ids: Vec<u64> = w.server.clients_id().into_iter().filter(|id| *id != HOST_ID).collect();
             ids.sort_unstable();
             let n_kick = r.urange(0, 2).min(ids.len());
             for id in ids.iter().take(n_kick) {
@@ -556,12 +591,13 @@ fn one_run_inner(ctx: &Ctx, out: &mut Outcome, run_seed: u64) {
             viol(ctx, out, &w, run_seed, "C20/lockstep/disconnected-connection-left-behind", "both layers agree right after NetcodeServerTransport::update", format!("RenetServer still holds disconnected connections {:?} after the transport update", disc));
             return;
         }
-        let mut renet_ids: Vec<u64> = w.server.clients_id();
+        let mut renet_ids: Vec<u64> = w.server.clients_id().into_iter().filter(|id| *id != HOST_ID).collect();
         renet_ids.sort_unstable();
+        let host_n = w.host.is_some() as usize;
         let known: BTreeSet<u64> = w.peers.iter().map(|p| p.id).collect();
         let mut netcode_ids: Vec<u64> = known.iter().copied().filter(|id| w.st.client_addr(*id).is_some()).collect();
         netcode_ids.sort_unstable();
-        if renet_ids != netcode_ids || w.server.connected_clients() != w.st.connected_clients() {
+        if renet_ids != netcode_ids || w.server.connected_clients() != w.st.connected_clients() + host_n {
             viol(
                 ctx,
                 out,
@@ -579,6 +615,13 @@ fn one_run_inner(ctx: &Ctx, out: &mut Outcome, run_seed: u64) {
                 ServerEvent::ClientConnected { client_id } => (client_id, true, None),
                 ServerEvent::ClientDisconnected { client_id, reason } => (client_id, false, Some(reason)),
             };
+            if id == HOST_ID {
+                if !connected {
+                    viol(ctx, out, &w, run_seed, "C20/host-player/disconnected", "across the full stack the channel guarantees still hold", format!("the local host player was reported disconnected: {:?}", reason));
+                    return;
+                }
+                continue;
+            }
             let prev = w.ev_state.get(&id).copied();
             let ok = match (prev, connected) {
                 (None, true) | (Some(false), true) | (Some(true), false) => true,
@@ -653,6 +696,36 @@ fn one_run_inner(ctx: &Ctx, out: &mut Outcome, run_seed: u64) {
         w.st.send_packets(&mut w.server);
         for p in w.peers.iter_mut() {
             let _ = p.transport.send_packets(&mut p.client);
+        }
+        // ---- host player: the listen server pumps its local client after the transport's send phase ------
+        if w.host.is_some() {
+            let mut bad: Option<String> = None;
+            {
+                let World { server, host, .. } = &mut w;
+                let h = host.as_mut().unwrap();
+                h.client.update(Duration::from_millis(dt));
+                let _ = server.process_local_client(HOST_ID, &mut h.client);
+                while let Some(m) = h.client.receive_message(CH_RO) {
+                    out.count("host_player_messages_obtained");
+                    if h.subs[1].get(h.got[1]).map(|x| &x[..]) != Some(&m[..]) {
+                        bad = Some(format!("the host player obtained a {}-byte message on the ordered channel that is not message #{} the server sent to it", m.len(), h.got[1]));
+                        break;
+                    }
+                    h.got[1] += 1;
+                }
+                while let Some(m) = server.receive_message(HOST_ID, CH_RO) {
+                    out.count("host_player_messages_obtained");
+                    if h.subs[0].get(h.got[0]).map(|x| &x[..]) != Some(&m[..]) {
+                        bad = Some(format!("the server obtained under the host player's id a {}-byte message that is not message #{} the host sent", m.len(), h.got[0]));
+                        break;
+                    }
+                    h.got[0] += 1;
+                }
+            }
+            if let Some(d) = bad {
+                viol(ctx, out, &w, run_seed, "C20/host-player/ordered-prefix", "across the full stack the channel guarantees still hold", d);
+                return;
+            }
         }
         // ---- relay ----------------------------------------------------------------------------
         let mut empty_polls = 0;
@@ -822,6 +895,17 @@ fn one_run_inner(ctx: &Ctx, out: &mut Outcome, run_seed: u64) {
         propagated += 1;
         out.count("disconnect_propagated");
         out.count("disconnect_propagated_by_timeout_or_late");
+    }
+    // ---- end of run: the host player's ordered streams are complete (its exchange is lossless) ----------
+    if let Some(h) = w.host.as_ref() {
+        out.count("host_player_liveness_checked");
+        for dir in 0..2usize {
+            if h.got[dir] != h.subs[dir].len() {
+                let d = format!("host player, {}: {} of {} ordered messages obtained at the end of the run (process_local_client ran every tick, after the transport's send_packets)", if dir == 0 { "host -> server" } else { "server -> host" }, h.got[dir], h.subs[dir].len());
+                viol(ctx, out, &w, run_seed, "C20/host-player/reliable-not-delivered", "across the full stack the channel guarantees still hold", d);
+                return;
+            }
+        }
     }
     // ---- end of run: the application's view (events) agrees with both layers ---------------------------
     for (id, connected) in w.ev_state.iter() {
